@@ -20,3 +20,5 @@ package mm
 //@   trusted
 //@   modifies allocState
 //@   ensures err != nil ==> memError(err)
+// ASSUMED: frames handed out lie in physical memory (52-bit physical addresses)
+//@   ensures err == nil ==> uintptr(f) < 0x10000000000
